@@ -6,7 +6,7 @@
    known finding F10).  None = the Go code would index out of range. *)
 From Coq Require Import List ZArith Bool.
 Import ListNotations.
-From V Require Import Model.SyncRingConc Proofs.SyncRingConc Proofs.SyncRingConcTop Proofs.SyncRingSeqState Proofs.SyncRingShort.
+From V Require Import Model.SyncRingConc Proofs.SyncRingConc Proofs.SyncRingConcTop Proofs.SyncRingSeqState Proofs.SyncRingShort Proofs.SyncRingPopProgress.
 Local Open Scope Z_scope.
 
 (* the freshly initialised ring of capacity 2^k satisfies the invariant, for every k in [1,31] and thread count *)
@@ -96,3 +96,10 @@ Theorem c01_observer_results : forall k c, Inv k c ->
   forall i o z cp, In (i, RObs o z cp) (hist c) -> match o with KLen => 0 <= z <= cp | _ => z = 0 \/ z = 1 end.
 Proof. exact observer_results. Qed.
 Print Assumptions c01_observer_results.
+
+(* when only poppers run on a quiescent ring that holds an element, some Pop succeeds *)
+Theorem c01_poppers_progress : forall k c0, Inv k c0 -> Forall (fun p => p = Idle) (ths c0) -> q (sh c0) <> [] ->
+  forall sched c, only_pop sched -> run c0 sched = Some c -> hist c <> hist c0 ->
+  Forall (fun p => p = Idle) (ths c) -> exists j v g, In (j, RPop v (Some g)) (hist c).
+Proof. exact poppers_progress. Qed.
+Print Assumptions c01_poppers_progress.
